@@ -49,6 +49,38 @@ def generate(chk, tier):
     return cases
 
 
+META_KINDS = ["saddle", "tuple22", "pdiag2", "pfull22", "prow2", "pcol2"]
+
+
+def generate_meta(chk):
+    import concurrent.futures as cf
+    jobs = []
+    for k in META_KINDS:
+        name = "gen_MetaMatVec_%s_%d.cfg" % (k, os.getpid())
+        with open(os.path.join(vlib.SPEC, name), "w") as f:
+            f.write('SPECIFICATION Spec\nCONSTANT Kind = "%s"\nINVARIANTS LeavesValid Placement Emit\nCHECK_DEADLOCK FALSE\n' % k)
+        jobs.append((name, k))
+    cases = []
+    with cf.ThreadPoolExecutor(max_workers=6) as ex:
+        futs = [(ex.submit(vlib.tlc, "MetaMatVec", cfg, timeout=1500, xmx="3g"), k, cfg) for cfg, k in jobs]
+        for f, k, cfg in futs:
+            r = f.result()
+            chk.add_tlc(r, "meta " + k)
+            if r.violation:
+                chk.model_violation(r, "MetaMatVec.tla invariant (%s)" % k)
+            cases.extend(r.printed)
+            try:
+                os.remove(os.path.join(vlib.SPEC, cfg))
+            except OSError:
+                pass
+    return cases
+
+
+def sig_meta(c, r):
+    return {"fmt": "meta:" + c["kind"], "op": c["op"], "m": c["m"], "n": c["n"], "outcome": r.get("outcome", "mismatch"),
+            "variant": ("flat" if "/flat" in (r.get("why") or "") else "meta")}
+
+
 def sig(c, r):
     nnz = len(c["rep"].get("ci", c["rep"].get("va", [])))
     return {"fmt": c["fmt"], "op": c["op"], "m": c["m"], "n": c["n"], "nnz": nnz, "empty_dim": c["m"] == 0 or c["n"] == 0, "outcome": r.get("outcome", "mismatch")}
@@ -59,18 +91,27 @@ def key(c):
 
 
 def run(chk):
-    binary, = vlib.build(["c01_matvec"])
+    binary, mbinary = vlib.build(["c01_matvec", "c01_metamat"])
+    mcases = generate_meta(chk)
+    mres = vlib.run_cases(mbinary, mcases, tmo=20)
+    vlib.judge_results(chk, mcases, mres, sig_meta, harness="c01_metamat",
+                       keyf=lambda c: json.dumps([c["kind"], c["leaves"], c["op"], c["an"], c["ad"], c["alias"]]))
+    chk.extra["meta_matrix_cases"] = len(mcases)
+    if mcases:
+        c = mcases[len(mcases) // 3]
+        chk.sample({k: c[k] for k in ("kind", "leaves", "op", "an", "ad", "alias", "x", "y", "exp")})
     cases = generate(chk, chk.tier)
     if not cases:
         raise vlib.MachineryError("generator produced no cases")
     res = vlib.run_cases(binary, cases, tmo=20)
     vlib.judge_results(chk, cases, res, sig, keyf=key, harness="c01_matvec",
                        nontrivial=lambda c: c["m"] > 0 and c["n"] > 0)
-    chk.traces = len(cases)
+    chk.traces = len(cases) + len(mcases)
     chk.exhaustive = True
     chk.rule = ("every post-state of spec/MatVec.tla: all shapes 0..M x 0..N, all sparsity patterns / offset sets / CSCR row "
                 "lists, all calls (apply, apply_transposed, axpy variants with alpha in {0,1,-1,2,-5/2}, r aliasing y, blocked-vector "
-                "variants), each replayed for float/double x uint32/uint64; non-trivial = non-empty shape; distinct = distinct "
+                "variants), each replayed for float/double x uint32/uint64; plus every post-state of spec/MetaMatVec.tla (SaddlePoint, Tuple, PowerDiag/Full/Row/Col "
+                "compositions over CSR leaves with palette patterns, meta-vector and flat DenseVector overloads); non-trivial = non-empty shape; distinct = distinct "
                 "(format, block shape, rep, call)")
     for c in cases[len(cases) // 2: len(cases) // 2 + 3]:
         chk.sample({k: c[k] for k in ("fmt", "m", "n", "rep", "op", "an", "ad", "alias", "x", "y", "exp")})
